@@ -3,8 +3,8 @@
    concurrent history under the exclusive discipline is linearizable w.r.t. that specification. *)
 From Coq Require Import List NArith Bool Arith Lia Permutation.
 From Common Require Import Lock.
-From Conc Require Import Lin LockedObject.
-From C35 Require Import Model Proofs ProofsPtr ProofsConc.
+From Conc Require Import Lin Cert LockedObject.
+From C35 Require Import Model Gen Checker Proofs ProofsT ProofsPtr ProofsConc.
 Import ListNotations.
 Local Open Scope N_scope.
 
@@ -49,4 +49,36 @@ Lemma RP_dump p q : RP p q -> snd (p_step p Dump) = RList (r_items q).
 Proof.
   intros [m [HR [Hi Ha]]]. destruct (p_step_refines p m Dump HR Hi) as [_ H]. rewrite H.
   subst q. reflexivity.
+Qed.
+
+(* ---- statements used by Properties.v ---- *)
+Theorem seq_refines (c : N) (ops : list op) :
+  p_run (p_new c) ops = r_run (r_new c) ops /\ m_run (m_new c) ops = r_run (r_new c) ops.
+Proof.
+  split; [apply p_run_r_run|]. rewrite <- abs_new. apply m_run_refines. apply minv_new.
+Qed.
+
+Theorem lru_lin_sound bud c h :
+  lru_lin bud c h = Some true -> linearizable (fspec rspec op res r_step) (r_new c) h.
+Proof. apply lin_check_m_true. exact res_eqb_spec. Qed.
+
+Theorem lru_lin_complete_false bud c h :
+  lru_lin_complete bud c h = Some false -> ~ linearizable (fspec rspec op res r_step) (r_new c) h.
+Proof. apply lin_check_b_false. exact res_eqb_spec. Qed.
+
+Theorem lru_cert_sound c h p :
+  lru_cert c h p = true -> linearizable (fspec rspec op res r_step) (r_new c) h.
+Proof. apply cert_ok_sound. exact res_eqb_spec. Qed.
+
+Theorem lru_by_time (c : N) (ops : list op) :
+  forallb getput ops = true -> r_run (r_new c) ops = t_run (t_new c) ops.
+Proof. apply r_run_t_run. apply RT_new. Qed.
+
+Theorem concurrent_get_refuted :
+  exists cf : cfg pst loc op res,
+    reach pst loc op res p_init p_fin p_mstep (mode_of prefix_locks) (init_cfg pst loc op res s321 two_gets) cf /\
+    length (done pst loc op res cf) = 2%nat /\
+    p_wf (shared pst loc op res cf) = false.
+Proof.
+  exists bad_final. destruct concurrent_get_corrupts as [A [B [_ [D _]]]]. exact (conj A (conj B D)).
 Qed.
